@@ -202,8 +202,16 @@ def build_soil(s):
 
 
 def n_layers(s) -> int:
+    """Number of layers that actually receive at least one compartment (a layer that starts below
+    the bottom of the compartment list does not exist in the built soil)."""
+    from .refsoil import layer_of_compartments
+
+    dz = s.get("args", {}).get("dz")
     if s["type"] == "custom":
-        return len(s["layers"])
+        th = [l["thickness"] for l in s["layers"]]
+        return int(max(layer_of_compartments(dz or [0.1] * 12, th)))
+    if s["type"] == "Paddy" and dz is not None:
+        return int(max(layer_of_compartments(dz, [0.5, 1.5])))
     return SOIL_LAYERS[s["type"]]
 
 
